@@ -150,7 +150,7 @@ func init() {
 			"fmt.Sprintf: Go model"},
 		Bounds: map[string][]string{
 			"quick":    {"envelope header with <= 2 stamps/links/tags, optional meta entry, notes, digest; signed header with <= 1 of each; every string one byte over {a,b} (all equal/different patterns)", "verification: 1..2 keys supplied, signer among them or not"},
-			"thorough": {"<= 3 / <= 2 entries respectively"},
+			"thorough": {"<= 2 / <= 2 entries respectively (<= 3 / <= 2 did not finish within the time budget: 4.5 million paths explored clean, 186 work items left, not claimed)"},
 		},
 		Outside:     []string{"ES256 / JOSE themselves", "JSON / YAML parsing of envelopes"},
 		Assumptions: []string{"JWS contract as documented by go-jose: verification with the signing key returns the signed payload, any other key fails"},
